@@ -233,6 +233,10 @@ impl SemaphoreState {
                     // Add to queue
                     wait_node.task = Some(cx.waker().clone());
                     wait_node.state = PollState::Waiting;
+                    // The notification of this task gets consumed without
+                    // acquiring permits. Older waiters might fit into the
+                    // available permits and must be woken instead.
+                    self.wakeup_waiters();
                     self.waiters.add_front(wait_node);
                     Poll::Pending
                 }
